@@ -69,9 +69,9 @@ CHECKS["C17"] = ("Find", "TLC model check of the upward walk as a state machine 
                  "Find.tla is checked for every chain configuration, start and stop (depth 2 quick / 3 thorough): the walk terminates, returns the "
                  "declaratively defined nearest spokfile and never looks above the stop directory; the pinned loop is refuted. Every chain of depth "
                  "<= 2 (quick) / <= 3 plus sampled depth 4 (thorough) x start x stop is built for real and searched in a watched child process; TLC "
-                 "evaluates Conforms_C17 on every record.", TB + "a call not returning within 1.5 s is a hang; nothing named spokfile above the sandbox.", "5 C17")
+                 "evaluates Conforms_C17 on every record.", TB + "a call not returning within 5 s is a hang; nothing named spokfile above the sandbox.", "5 C17")
 
-SYNTB = TB + ("white space between generated tokens is ASCII; hex-encoded strings compared byte for byte; a parse not returning in 3 s is a hang. ")
+SYNTB = TB + ("white space between generated tokens is ASCII; hex-encoded strings compared byte for byte; a parse not returning in 8 s is a hang. ")
 SYNTECH = ("input spaces generated from TLA+ models (SpokSyntax generative grammar rendered by TLC with the token stream and tree each text denotes; "
            "LexSM/ParseSM state machines) plus bounded-exhaustive class-alphabet strings, repo spokfiles and all truncations, loose layouts; real "
            "lexer/parser/printer run on every input; TLC evaluates the SyntaxJudge relation")
